@@ -9,7 +9,7 @@ if [ "${1:-}" = "--clean" ]; then rm -rf /tmp/cfb-mut /tmp/cfb-mut-target; exit 
 patch="$1"; shift
 W=/tmp/cfb-mut/$$; rm -rf "$W"; mkdir -p "$W/verif/harness" "$W/out"
 rsync -a --exclude target --exclude .git /repo/ "$W/repo/"
-rsync -a --exclude target --exclude fuzz /verif/harness/ "$W/verif/harness/"
+rsync -a --exclude target --exclude fuzz "${VERIF_HARNESS_SRC:-/verif/harness}/" "$W/verif/harness/"
 if [[ "$patch" == revert:* ]]; then
   c="${patch#revert:}"
   git -C /repo diff "$c" "$c^" > "$W/p.diff"
